@@ -448,7 +448,7 @@ fn main() {
          end the directory listing must be exactly the model's ids (the store's own `__canary` file ignored); after reopen all \
          6 ids are read back. non-trivial = history that ran to its end, distinct by its operation sequence",
     )
-    .min(args.n(2000, 50_000))
+    .min(args.n(1500, 50_000))
     .require("listings_after_vacant_drop", "dropped vacant entries must have been followed by a listing")
     .require("listings_after_reopen", "reopen must have been followed by a listing")
     .require("op:occupied-get", "occupied entry reads")
@@ -463,7 +463,7 @@ fn main() {
         finish_all(&args, vec![m]);
     }
 
-    let histories = args.n(8000, 250_000);
+    let histories = args.n(5000, 250_000);
     let cap = args.tier.pick(70.0, 800.0);
     mon_crypto::run_sharded(&args, &mut m, histories, cap, |m, k| {
         let hs = mon_crypto::case_seed(&args, 45, k);
